@@ -1214,18 +1214,23 @@ class ABCPropertyGraph(ABCPropertyGraphConstants):
 
         props = self.node_sliver_to_graph_properties_dict(sliver)
         self.add_node(node_id=sliver.node_id, label=ABCPropertyGraph.CLASS_NetworkNode, props=props)
-        # if components aren't empty, add components, their network services and interfaces
-        aci = sliver.attached_components_info
-        if aci is not None:
-            for csliver in aci.devices.values():
-                self.add_component_sliver(parent_node_id=sliver.node_id,
-                                          component=csliver)
-        # if network services arent empty add them with their interfaces
-        nsi = sliver.network_service_info
-        if nsi is not None:
-            for ns in nsi.network_services.values():
-                self.add_network_service_sliver(parent_node_id=sliver.node_id,
-                                                network_service=ns)
+        try:
+            # if components aren't empty, add components, their network services and interfaces
+            aci = sliver.attached_components_info
+            if aci is not None:
+                for csliver in aci.devices.values():
+                    self.add_component_sliver(parent_node_id=sliver.node_id,
+                                              component=csliver)
+            # if network services arent empty add them with their interfaces
+            nsi = sliver.network_service_info
+            if nsi is not None:
+                for ns in nsi.network_services.values():
+                    self.add_network_service_sliver(parent_node_id=sliver.node_id,
+                                                    network_service=ns)
+        except Exception:
+            # don't leave a partially built node behind
+            self.remove_network_node_with_components_nss_cps_and_links(node_id=sliver.node_id)
+            raise
 
     def add_network_link_sliver(self, *, lsliver: NetworkLinkSliver, interfaces: List[str]):
 
